@@ -376,8 +376,10 @@ def check_wfn_mo_blocks(ctx, rid):
     iocls = prog.cls("iodata.iodata.IOData")
     licls = prog.cls("iodata.utils.LineIterator")
     loop = None
+    # (the orbital header may be printed by a helper of the module that the loop calls)
+    mos_helpers = {h.name for h in prog.callees_closure([do]) if h.module is do.module and h is not do and any(isinstance(x, ast.Name) and x.id == "FMT_MOS" for x in ast.walk(h.node))}
     for st in do.body:
-        if isinstance(st, ast.For) and any(isinstance(x, ast.Name) and x.id == "FMT_MOS" for x in ast.walk(st)):
+        if isinstance(st, ast.For) and any(isinstance(x, ast.Name) and (x.id == "FMT_MOS" or x.id in mos_helpers) for x in ast.walk(st)):
             loop = st
     if loop is None:
         raise AnalysisError("wfn.dump_one: the loop that writes the MO sections (FMT_MOS) was not found")
@@ -544,7 +546,7 @@ def check_wfn_primitive_lists(ctx, rid):
     prims = [(0, 0, 5.0), (0, 2, 1.5), (1, 1, 0.8), (1, 1, 0.3), (0, 3, 0.9), (1, 0, 0.2)]
     obasis = Rec(bcls, shells=[sh(*p_) for p_ in prims], conventions=conv, primitive_normalization="L2")
     body = do.body
-    tgt = lambda st, name: isinstance(st, ast.Assign) and len(st.targets) == 1 and isinstance(st.targets[0], ast.Name) and st.targets[0].id == name
+    tgt = lambda st, name: isinstance(st, ast.Assign) and len(st.targets) == 1 and ((isinstance(st.targets[0], ast.Name) and st.targets[0].id == name) or (isinstance(st.targets[0], ast.Tuple) and any(isinstance(e_, ast.Name) and e_.id == name for e_ in st.targets[0].elts)))
     calls = [x for x in do.own_nodes() if isinstance(x, ast.Call) and getattr(x.func, "id", "") == "_dump_helper_section" and len(x.args) >= 2 and isinstance(x.args[1], ast.Name)]
     if len(calls) < 3:
         raise AnalysisError("wfn.dump_one: the three section writers (centres, types, exponents) were not found")
